@@ -116,7 +116,7 @@ def stmtToJson : Stmt → Json
     stmtJ "mysqlModify" t [("col", c), ("ty", ty), ("n", n), ("ai", ai), ("d", optS d), ("c", optS cm)]
   | .mssqlAlter t c ty n => stmtJ "mssqlAlter" t [("col", c), ("ty", ty), ("n", optB n)]
   | .mssqlAddDefault t c d => stmtJ "mssqlAddDefault" t [("col", c), ("d", d)]
-  | .mssqlDropDefault t c => stmtJ "mssqlDropDefault" t [("col", c)]
+  | .mssqlDropDefault t o c => stmtJ "mssqlDropDefault" t [("col", c), ("objSchema", optS o.schema), ("objTable", o.table)]
   | .identityAdd t c a s => stmtJ "identityAdd" t [("col", c), ("always", a), ("start", optN s)]
   | .identityDrop t c => stmtJ "identityDrop" t [("col", c)]
   | .identityAlter t c a s => stmtJ "identityAlter" t [("col", c), ("always", optB a), ("start", optN s)]
@@ -148,7 +148,7 @@ def stmtOf (j : Json) : Option Stmt := do
     pure (.mysqlModify t col ty n ai (getStr j "d") (getStr j "c"))
   | "mssqlAlter" => (getStr j "ty").map (fun ty => .mssqlAlter t col ty (getBool j "n"))
   | "mssqlAddDefault" => (getStr j "d").map (.mssqlAddDefault t col)
-  | "mssqlDropDefault" => some (.mssqlDropDefault t col)
+  | "mssqlDropDefault" => (getStr j "objTable").map (fun ot => .mssqlDropDefault t ⟨getStr j "objSchema", ot⟩ col)
   | "identityAdd" => (getBool j "always").map (fun a => .identityAdd t col a (getNat j "start"))
   | "identityDrop" => some (.identityDrop t col)
   | "identityAlter" => some (.identityAlter t col (getBool j "always") (getNat j "start"))
